@@ -43,7 +43,7 @@ func cfgRun(c string) string {
 			return "encerr"
 		}
 		out := reflect.New(t)
-		err = data.Decode(data.NodeEdgeChildren{NodeEdge: ne}, out.Interface())
+		err = data.Decode(data.NodeEdgeChildren{NodeEdge: ne}, cfgTarget(c, out))
 		st := "ok "
 		if err != nil {
 			st = "err "
@@ -81,7 +81,13 @@ func cfgRun(c string) string {
 			}
 		}
 		out := reflect.New(tk)
-		err = data.Decode(data.NodeEdgeChildren{NodeEdge: ne, Children: children}, out.Interface())
+		if len(children) >= 2 {
+			// the struct is not fresh: the same node was decoded into it before, with the children in another order (the
+			// child lists are replaced by every Decode, so this must not show in the result)
+			rot := append(append([]data.NodeEdgeChildren(nil), children[1:]...), children[0])
+			_ = data.Decode(data.NodeEdgeChildren{NodeEdge: ne, Children: rot}, out.Interface())
+		}
+		err = data.Decode(data.NodeEdgeChildren{NodeEdge: ne, Children: children}, cfgTarget(c, out))
 		st := "ok "
 		if err != nil {
 			st = "err "
@@ -99,7 +105,7 @@ func cfgRun(c string) string {
 	case "dec":
 		v := buildCfgValue(t, fields, f[2])
 		ne := data.NodeEdge{Points: parseCps(f[3]), EdgePoints: parseCps(f[4])}
-		err := data.Decode(data.NodeEdgeChildren{NodeEdge: ne}, v.Interface())
+		err := data.Decode(data.NodeEdgeChildren{NodeEdge: ne}, cfgTarget(c, v))
 		st := "ok "
 		if err != nil {
 			st = "err "
@@ -108,7 +114,7 @@ func cfgRun(c string) string {
 	case "mrg":
 		v := buildCfgValue(t, fields, f[2])
 		id := v.Elem().Field(0).String()
-		err := data.MergePoints(id, parseCps(f[3]), v.Interface())
+		err := data.MergePoints(id, parseCps(f[3]), cfgTarget(c, v))
 		if err != nil && strings.Contains(err.Error(), "no matching struct") {
 			return "nomatch"
 		}
@@ -132,7 +138,7 @@ func cfgRun(c string) string {
 		case "e":
 			id = ""
 		}
-		err := data.MergeEdgePoints(id, parent, parseCps(f[4]), v.Interface())
+		err := data.MergeEdgePoints(id, parent, parseCps(f[4]), cfgTarget(c, v))
 		if err != nil && strings.Contains(err.Error(), "no matching struct") {
 			return "nomatch"
 		}
@@ -452,6 +458,19 @@ func genHostilePoints(r *rand.Rand, fields []cfgField, edge bool) string {
 		return "-"
 	}
 	return strings.Join(ps, ";")
+}
+
+// cfgTarget: the three forms in which the API takes the struct to fill — a pointer to it, a reflect.Value of it, a
+// pointer to such a reflect.Value — chosen by the case text, so that every form is exercised with every kind of case
+func cfgTarget(c string, v reflect.Value) interface{} {
+	switch len(c) % 3 {
+	case 1:
+		return v.Elem()
+	case 2:
+		sv := v.Elem()
+		return &sv
+	}
+	return v.Interface()
 }
 
 func c11Gen(r *rand.Rand, n int, tier string) []string {
